@@ -11,11 +11,11 @@ VERUS_UNITS = {
 KANI_HARNESSES = {
     "k_pad": {"crate": "maybenot", "default_tag": "C01.safety_leaf", "tier": "quick",
               "variants": ["framework::verif_proofs::k_pad", "framework::verif_proofs::k_pad_cvc5"],
-              "props": ["C02", "C07"], "bounded": None,
+              "props": ["C02", "C07"], "bounded": None, "cex": "framework::verif_proofs::k_pad_cex",
               "fn": "Framework::below_limit_padding", "file": "crates/maybenot/src/framework.rs"},
     "k_blk": {"crate": "maybenot", "default_tag": "C01.safety_leaf", "tier": "quick",
               "variants": ["framework::verif_proofs::k_blk", "framework::verif_proofs::k_blk_kissat"],
-              "props": ["C03", "C07"], "bounded": None,
+              "props": ["C03", "C07"], "bounded": None, "cex": "framework::verif_proofs::k_blk_cex",
               "fn": "Framework::below_limit_blocking", "file": "crates/maybenot/src/framework.rs"},
 }
 
@@ -26,5 +26,7 @@ PROPS = {
     "C03": {"verus": ["vfw"], "kani": ["k_blk"], "title": "Blocking budgets"},
     "C04": {"verus": ["vfw"], "kani": [], "title": "Output contract"},
     "C07": {"verus": ["vfw", "vleaf"], "kani": ["k_pad", "k_blk"], "title": "Per-state limits"},
+    "C08": {"verus": ["vfw"], "kani": [], "title": "Counters"},
+    "C09": {"verus": ["vfw"], "kani": [], "title": "Signals"},
     "C10": {"verus": ["vfw"], "kani": [], "title": "Non-interference"},
 }
